@@ -5,6 +5,7 @@ CONSTANTS
   ArgVals <- ThoroughArgs
   StepVals = {1, 2, 3}
   Fuel = 9
+  OneQ = FALSE
   MaxAbs = 10
 INVARIANTS MachineIsSeqIters SchemeCovers
 CONSTRAINT Emit
